@@ -45,7 +45,11 @@ def step_sets(fparams, rnd):
                 steps.append(('kwoargs(%s)' % ', '.join(map(repr, kw)), set(kw), set()))
         if rnd.random() < 0.35:
             defaulted = {p[0] for p in fparams if p[1] == PK and p[2] is not None and p[0] not in po}
-            steps.append(('autokwoargs', defaulted, set()))
+            exc = sorted(defaulted)[:1] if defaulted and rnd.random() < 0.5 else []
+            if exc:
+                steps.append(('autokwoargs(exceptions=%r)' % (exc,), defaulted - set(exc), set()))
+            else:
+                steps.append(('autokwoargs', defaulted, set()))
         if named and rnd.random() < 0.7:
             an = rnd.sample(named, rnd.randint(1, min(2, len(named))))
             steps.append(('annotate(%s)' % ', '.join('%s=%r' % (n, 'A_' + n) for n in an), set(), set(), tuple(an)))
@@ -81,10 +85,23 @@ def check_orders(ctx, fparams, steps):
         exp.append((n, k, d, anns.get(n, a)))
     exp = tuple(exp)
     sp = None
+    # in half of the step sets the decorator OBJECTS are made once and used again for every order
+    # (a decorator may be applied any number of times)
+    shared = None
+    if (sum(map(len, (s[0] for s in steps))) + len(fparams)) % 2 == 0:
+        from sigtools import modifiers as _m
+        try:
+            shared = [eval('modifiers.' + s[0], {'modifiers': _m}) for s in steps]
+            w['decorator_objects_shared_by_all_orders'] = True
+            ctx.count('C18.step_sets_with_shared_decorator_objects')
+        except Exception:
+            shared = None
     for perm in itertools.permutations(range(len(steps))):
         deco = ['@modifiers.%s' % steps[i][0] for i in reversed(perm)]     # first applied = innermost = last line
+        if shared is not None:
+            deco = ['@_D[%d]' % i for i in reversed(perm)]
         try:
-            g, ref, ns = w_mod.build_pair(fparams, deco, exp)
+            g, ref, ns = w_mod.build_pair(fparams, deco, exp, extra_globals={'_D': shared} if shared is not None else None)
         except ValueError:
             ctx.count('C18.inadmissible_orders')
             continue
